@@ -7,8 +7,8 @@ PROPS = [json.loads(l) for l in open(os.path.join(ROOT, "properties.jsonl"))]
 # property -> (claimed?, level text, level note, technique, design ref)
 CLAIMS = {}
 
-def claim(pid, text, note, technique="contract-based deductive verification: VCs generated from the real source by pyvc, discharged by z3/cvc5", ref=None):
-    CLAIMS[pid] = dict(text=text, note=note, technique=technique, ref=ref or f"DESIGN.md §6 {pid}")
+def claim(pid, text, note, technique="contract-based deductive verification: VCs generated from the real source by pyvc, discharged by z3/cvc5", ref=None, category="proof"):
+    CLAIMS[pid] = dict(text=text, note=note, technique=technique, ref=ref or f"DESIGN.md §6 {pid} and §12.2", category=category)
 
 NA = {}
 exec(open(os.path.join(ROOT, "tools", "claims.py")).read())
@@ -28,7 +28,7 @@ def main():
             "evidence_file": f"evidence/{pid}.json",
             "replay_cmd_template": f"./check {pid} --replay {{path}}",
             "engine": "pyvc",
-            "level_claimed": {"category": "proof", "text": c["text"], "design_ref": c["ref"]},
+            "level_claimed": {"category": c["category"], "text": c["text"], "design_ref": c["ref"]},
             "level_note": c["note"],
             "technique": c["technique"],
         })
